@@ -33,6 +33,7 @@ import (
 	"github.com/pkg/errors"
 	"os"
 	"sort"
+	"sync"
 	"time"
 )
 
@@ -48,6 +49,10 @@ type (
 		logger log4g.Logger
 		weCh   chan WriteEvent
 		tmir   *tmirebuilder
+
+		// wrLocks: partition Id -> *sync.Mutex. Writers which emit write events for one partition store their records
+		// and publish their events one after another, so the events of a partition arrive in the order of its records
+		wrLocks sync.Map
 	}
 
 	// TruncateParams allows to provide parameters for Truncate() functions
@@ -181,6 +186,15 @@ func (s *Service) Write(ctx context.Context, tags string, lit model.Iterator, no
 
 	var we WriteEvent
 	weInit := false
+
+	if !noEvent {
+		// the write event of records stored earlier must not be published later (a pipe takes the start of the
+		// first event it sees of a partition as its starting point there)
+		l, _ := s.wrLocks.LoadOrStore(src, &sync.Mutex{})
+		mu := l.(*sync.Mutex)
+		mu.Lock()
+		defer mu.Unlock()
+	}
 
 	for {
 		n, pos, err1 := jrnl.Write(ctx, &iw)
